@@ -109,7 +109,9 @@ static void load_all (eng_t *e, const char *text) {
   MIR_load_external (ctx, "extp", extp);
   switch (e->kind) {
   case E_INTERP: case E_INTERPC: MIR_link (ctx, MIR_set_interp_interface, NULL); break;
-  case E_GEN: MIR_gen_init (ctx); MIR_gen_set_optimize_level (ctx, e->level); MIR_link (ctx, MIR_set_gen_interface, NULL); break;
+  case E_GEN: MIR_gen_init (ctx); MIR_gen_set_optimize_level (ctx, e->level);
+    if (getenv ("ENGINE_DEBUG")) { MIR_gen_set_debug_file (ctx, stderr); MIR_gen_set_debug_level (ctx, atoi (getenv ("ENGINE_DEBUG"))); }
+    MIR_link (ctx, MIR_set_gen_interface, NULL); break;
   case E_LAZY: MIR_gen_init (ctx); MIR_gen_set_optimize_level (ctx, e->level); MIR_link (ctx, MIR_set_lazy_gen_interface, NULL); break;
   case E_BB: MIR_gen_init (ctx); MIR_gen_set_optimize_level (ctx, e->level); MIR_link (ctx, MIR_set_lazy_bb_gen_interface, NULL); break;
   }
@@ -135,7 +137,7 @@ static bits_t l2b (long double l) { bits_t b; memcpy (&b.lo, &l, 8); memcpy (&b.
 
 /* signature string: argument classes then '_' then result class; classes i f d l */
 static void call_native (void *addr, const char *sig, bits_t *a, bits_t *r) {
-  char s[8]; strncpy (s, sig, 7); s[7] = 0;
+  char s[16]; strncpy (s, sig, 15); s[15] = 0;
 #define I(k) ((int64_t) a[k].lo)
 #define D(k) b2d (a[k].lo)
 #define F(k) b2f (a[k].lo)
@@ -307,15 +309,26 @@ static void do_prog (const char *fname, uint64_t *iv, uint64_t *dv) {
   /* engine 0 is the reference (interp): print its full observation, then per engine same/diff */
   printf ("P %s %llx %llx %llx %llx %llx %llx |", fname, (unsigned long long) iv[0], (unsigned long long) iv[1],
           (unsigned long long) iv[2], (unsigned long long) iv[3], (unsigned long long) dv[0], (unsigned long long) dv[1]);
-  for (int k = 0; k < neng; k++) {
-    int same = sgs[k] == sgs[0] && rs[k].lo == rs[0].lo && nlogs[k] == nlogs[0]
-               && memcmp (buf[k], buf[0], BUFSZ + 64) == 0
-               && memcmp (logs[k], logs[0], sizeof (logbuf[0]) * nlogs[0]) == 0;
-    if (sgs[k]) printf (" !SIG%d", sgs[k]);
-    else printf (" %llx%s", (unsigned long long) rs[k].lo, same ? "" : "*");
-  }
+  int allsame = 1;
+  for (int k = 1; k < neng; k++)
+    if (!(sgs[k] == sgs[0] && rs[k].lo == rs[0].lo && nlogs[k] == nlogs[0]
+          && memcmp (buf[k], buf[0], BUFSZ + 64) == 0
+          && memcmp (logs[k], logs[0], sizeof (logbuf[0]) * nlogs[0]) == 0))
+      allsame = 0;
+  if (allsame) {
+    if (sgs[0]) printf (" =!SIG%d", sgs[0]);
+    else printf (" =%llx log%d", (unsigned long long) rs[0].lo, nlogs[0]);
+  } else
+    for (int k = 0; k < neng; k++) {
+      int same = sgs[k] == sgs[0] && rs[k].lo == rs[0].lo && nlogs[k] == nlogs[0]
+                 && memcmp (buf[k], buf[0], BUFSZ + 64) == 0
+                 && memcmp (logs[k], logs[0], sizeof (logbuf[0]) * nlogs[0]) == 0;
+      if (sgs[k]) printf (" !SIG%d", sgs[k]);
+      else printf (" %llx%s", (unsigned long long) rs[k].lo, same ? "" : "*");
+    }
   printf ("\n");
-  if (!quiet) {
+  if (allsame && quiet) return;
+  {
     for (int k = 0; k < neng; k++) {
       int same = k > 0 && nlogs[k] == nlogs[0] && memcmp (buf[k], buf[0], BUFSZ + 64) == 0
                  && memcmp (logs[k], logs[0], sizeof (logbuf[0]) * nlogs[0]) == 0;
